@@ -1177,6 +1177,28 @@ def synthetic(ctx, names, anchors):
         check_case(ctx, [{'lines': objs, 'kind': 'synthetic'}], fs, orders(ctx, k))
 
 
+WITNESS_BITS = '010010' + '0' * 100      # a type 18 report cut before the radio field
+
+
+def witness(ctx):
+    """The message of C19_nonefilter_unrepaired_raises (Model/Filter.v filter_truncated_type18): pyais must still decode
+    the recorded payload to the recorded description, and NoneFilter over each of its computed attributes -- alone, after a
+    present attribute, after a None attribute -- goes through the correspondence check and the oracle."""
+    rep = ctx.rep
+    lines = ais.bits_to_sentences(WITNESS_BITS)
+    items = decode_stream(lines)
+    tok = msg_token(items[0]) if len(items) == 1 and not isinstance(items[0], Exception) else repr(items)
+    if ctx.model is not None:
+        want = ctx.model.ask('c19witness')
+        if tok != want:
+            rep.disagree('H-filter', {'witness': WITNESS_BITS}, want, tok)
+    comp = [c for c in computed_names(items[0])] if tok and not isinstance(items[0], Exception) else []
+    for c in comp:
+        for attrs in ([c], ['mmsi', c], ['course', c], [c, 'course']):
+            rep.count('stream:witness')
+            check_case(ctx, [{'lines': lines, 'kind': 'witness'}], [('N', attrs)], [(0,)])
+
+
 def run(ctx):
     rng, rep = ctx.rng, ctx.rep
     pool, anchors = build_pool(ctx, ctx.budget(360, 1500))
@@ -1224,6 +1246,7 @@ def run(ctx):
             rep.count('chain:random')
         check_case(ctx, groups, fs, orders(ctx, len(fs)), want_sample=(c % sample_every == 0))
     synthetic(ctx, names, anchors)
+    witness(ctx)
     # FilterChain([]) is rejected
     rep.case(('empty-chain',), kind='len0')
     impl = run_impl([], pool[0]['lines'])
